@@ -299,6 +299,7 @@ class C04(runner.Check):
       res.evaluation((kinds, tuple(s.trace)), nontrivial)
       res.log.append(['sched', si, status, [list(x) for x in s.trace]])
       viol = []
+      id_reused = False
       if status != 'done':
         viol.append(('deadlock', f'no runnable thread: {[(t["name"], t["blocked_on"].name if t["blocked_on"] else None) for t in s.tasks.values() if not t["done"]]}'))
       else:
@@ -312,6 +313,13 @@ class C04(runner.Check):
         got = canon(bkinds, outs, snap, old)
         if got not in serial:
           viol.append(self._explain(batch, outs, got, serial))
+          # Narrow cause flag for the known-findings file: a trial deleted by the
+          # batch had its id re-used by a trial created in the same batch.
+          for c, o in zip(batch, outs):
+            if c['kind'] == 'DeleteTrial' and o[0] == 'ok':
+              st = snap['studies'].get(c['study'])
+              if st and isinstance(st['trials'], dict) and c['trial'] in st['trials']:
+                id_reused = True
         for oname, o in snap['ops'].items():
           if not o['done']:
             viol.append(('unfinished-operation', f'{oname} left done=False by the batch'))
@@ -328,7 +336,8 @@ class C04(runner.Check):
           if clause not in seen:
             seen.add(clause)
             res.violate(clause, f'{detail} | batch={[c["kind"] for c in batch]} schedule#{si}',
-                        sig={'kinds': list(kinds), 'store': 'ram' if cfg['backend'] == 'ram' else 'sql'})
+                        sig={'kinds': list(kinds), 'store': 'ram' if cfg['backend'] == 'ram' else 'sql',
+                             'deleted_id_reused_in_batch': id_reused})
         # make the plan replayable with the explicit schedule only
         res.explicit = {'index': si, 'choices': list(s.choices)}
         break
